@@ -1,5 +1,10 @@
 import PyYetiVerif.Lemmas.Uset
 import PyYetiVerif.Lemmas.Locate
+import PyYetiVerif.Lemmas.LocateDups
+import PyYetiVerif.Lemmas.LocateSlice
+import PyYetiVerif.Lemmas.LocateMerge
+import PyYetiVerif.Lemmas.UsetMake
+import PyYetiVerif.Lemmas.UsetUp
 /-!
 # C18 — DOF-set partitions and index look-ups satisfy their defining relations
 
@@ -625,6 +630,538 @@ theorem find_unique_spec (y : List Int) (tn : Int) (td : Nat) (out : List Bool)
         have := h2 d List.mem_cons_self
         omega
       · exact hex
+
+
+/-! ## find_duplicates -/
+
+/-- `find_duplicates(v, tol)`: `dups[i]` is `True` iff ANOTHER entry of `v` lies within `tol` of
+`v[i]` (`|v[j] - v[i]| ≤ tol`, `j ≠ i`).  The code only compares the two *sorted neighbours* of
+every value (`tf[k-1] or tf[k]` on `abs(diff(sort(v))) <= tol`); that is the same thing, also for
+chains of near-equal values, because the closest other value is a sorted neighbour. -/
+theorem find_duplicates_spec (v : List Int) (tol : Int) :
+    findDuplicates v tol =
+      v.zipIdx.map (fun a => decide (∃ p ∈ v.zipIdx, p.2 ≠ a.2 ∧ ((p.1 - a.1).natAbs : Int) ≤ tol)) :=
+  findDuplicates_eq v tol
+
+/-- a chain `0, 1, 2` with `tol = 1`: every value has a neighbour within `tol` (the ends are not
+within `tol` of each other); spaced values and a negative `tol` flag nothing; `<=`, not `<`. -/
+example : findDuplicates ([2, 0, 1] : List Int) 1 = [true, true, true] := by
+  rw [find_duplicates_spec]; decide
+example : findDuplicates ([0, 2, 4] : List Int) 1 = [false, false, false] := by
+  rw [find_duplicates_spec]; decide
+example : findDuplicates ([0, 0] : List Int) (-1) = [false, false] := by
+  rw [find_duplicates_spec]; decide
+example : findDuplicates ([5, 0, 5] : List Int) 0 = [true, false, true] := by
+  rw [find_duplicates_spec]; decide
+
+/-! ## index2slice -/
+
+/-- index vectors that `index2slice` turns into a slice: at most one entry, or an arithmetic
+progression with a non-zero step all of whose entries are non-negative. -/
+def Convertible (pv : List Int) : Prop :=
+  pv.length ≤ 1 ∨ ∃ x d, d ≠ 0 ∧ pv = prog x d pv.length ∧ ∀ p ∈ pv, 0 ≤ p
+
+/-- `index2slice` returns a slice exactly for the convertible vectors; any other vector comes back
+unchanged, or is a `ValueError` when `strict`. -/
+theorem index2slice_cases (pv : List Int) (strict : Bool) :
+    (Convertible pv → ∃ a b c, index2slice pv strict = .ok (.slice a b c)) ∧
+    (¬ Convertible pv →
+      index2slice pv strict = if strict then .error .value else .ok (.pv pv)) := by
+  match pv with
+  | [] => exact ⟨fun _ => ⟨_, _, _, rfl⟩, fun h => absurd (Or.inl (by simp)) h⟩
+  | [x] => exact ⟨fun _ => ⟨_, _, _, rfl⟩, fun h => absurd (Or.inl (by simp)) h⟩
+  | x :: y :: rest =>
+      have hlast : ∀ d, (x :: y :: rest) = prog x d (rest.length + 2) →
+          (y :: rest).getLast?.getD y = x + ((rest.length + 1 : Nat) : Int) * d := by
+        intro d hp
+        have h1 := getLast_prog x d (rest.length + 1)
+        rw [← hp, List.getLast?_cons_cons] at h1
+        rw [h1]; rfl
+      by_cases hc : (y - x ≠ 0 ∧ (diffs (x :: y :: rest)).all (· = y - x) = true ∧ 0 ≤ x ∧
+          0 ≤ (y :: rest).getLast?.getD y)
+      · refine ⟨fun _ => ?_, fun hn => absurd (Or.inr ⟨x, y - x, hc.1, ?_, ?_⟩) hn⟩
+        · unfold index2slice
+          simp only
+          rw [if_pos hc]
+          exact ⟨_, _, _, rfl⟩
+        · exact (diffs_all_iff (y - x) (y :: rest) x).mp hc.2.1
+        · have hp := (diffs_all_iff (y - x) (y :: rest) x).mp hc.2.1
+          rw [List.length_cons] at hp
+          have hl := hlast _ hp
+          intro p hpm
+          rw [hp] at hpm
+          have hb := prog_bounds hpm
+          rw [hl] at hc
+          rcases Int.le_total 0 (y - x) with hd | hd
+          · have := (hb.1 hd).1; omega
+          · have := (hb.2 hd).1; omega
+      · refine ⟨fun hconv => ?_, fun _ => ?_⟩
+        · exfalso
+          apply hc
+          rcases hconv with hl | ⟨x', d, hd, hp, hnn⟩
+          · simp at hl
+          · have hp' := hp
+            simp only [List.length_cons] at hp'
+            rw [prog_succ, prog_succ] at hp'
+            have hx : x' = x := (List.cons.inj hp').1.symm
+            subst hx
+            have hy : y = x' + d := (List.cons.inj (List.cons.inj hp').2).1
+            have hdd : y - x' = d := by omega
+            have hp2 : x' :: y :: rest = prog x' (y - x') ((y :: rest).length + 1) := by
+              rw [hdd]; exact hp
+            refine ⟨by omega, (diffs_all_iff (y - x') (y :: rest) x').mpr hp2, ?_, ?_⟩
+            · exact hnn x' List.mem_cons_self
+            · have hmem : (y :: rest).getLast?.getD y ∈ x' :: y :: rest := by
+                cases hg : (y :: rest).getLast? with
+                | none => simp
+                | some z =>
+                    exact List.mem_cons_of_mem _ (List.mem_of_getLast? hg)
+              exact hnn _ hmem
+        · unfold index2slice
+          simp only
+          rw [if_neg hc]
+
+/-- the slice returned by `index2slice` selects exactly the positions that `pv` names: for every
+axis length `n` for which `pv` is a valid index vector, `range(n)[slice]` (CPython semantics,
+model `pySlice`) is `pv` with negative entries counted from the end.  This covers negative steps
+and `stop = None` for a descending progression that reaches index 0. -/
+theorem index2slice_spec (pv : List Int) (strict : Bool) (a b c : Option Int)
+    (h : index2slice pv strict = .ok (.slice a b c)) (n : Nat)
+    (hn : ∀ p ∈ pv, -(n : Int) ≤ p ∧ p < n) :
+    pySlice a b c n = .ok (pv.map (· % (n : Int))) := by
+  match pv with
+  | [] =>
+      unfold index2slice at h
+      simp only [Except.ok.injEq, SliceOrPv.slice.injEq] at h
+      obtain ⟨rfl, rfl, rfl⟩ := h
+      exact pySlice_empty n
+  | [x] =>
+      unfold index2slice at h
+      simp only [Except.ok.injEq, SliceOrPv.slice.injEq] at h
+      obtain ⟨rfl, rfl, rfl⟩ := h
+      have := hn x List.mem_cons_self
+      exact pySlice_single this.1 this.2
+  | x :: y :: rest =>
+      unfold index2slice at h
+      simp only at h
+      split at h
+      · rename_i hc
+        simp only [Except.ok.injEq, SliceOrPv.slice.injEq] at h
+        obtain ⟨rfl, rfl, rfl⟩ := h
+        have hp := (diffs_all_iff (y - x) (y :: rest) x).mp hc.2.1
+        rw [List.length_cons] at hp
+        have hl : (y :: rest).getLast?.getD y = x + ((rest.length + 1 : Nat) : Int) * (y - x) := by
+          have h1 := getLast_prog x (y - x) (rest.length + 1)
+          rw [← hp, List.getLast?_cons_cons] at h1
+          rw [h1]; rfl
+        have hmemlast : (y :: rest).getLast?.getD y ∈ x :: y :: rest := by
+          cases hg : (y :: rest).getLast? with
+          | none => simp
+          | some z => exact List.mem_cons_of_mem _ (List.mem_of_getLast? hg)
+        have hnn : ∀ p ∈ x :: y :: rest, 0 ≤ p := by
+          intro p hpm
+          have hpm' := hpm
+          rw [hp] at hpm'
+          have hb := prog_bounds hpm'
+          have h0 := hc.2.2.2
+          rw [hl] at h0
+          rcases Int.le_total 0 (y - x) with hd | hd
+          · have := (hb.1 hd).1; omega
+          · have := (hb.2 hd).1; omega
+        have hmod : (x :: y :: rest).map (· % (n : Int)) = x :: y :: rest := by
+          conv => rhs; rw [← List.map_id (x :: y :: rest)]
+          apply List.map_congr_left
+          intro p hpm
+          exact Int.emod_eq_of_lt (hnn p hpm) (hn p hpm).2
+        rw [hmod, hl]
+        conv => rhs; rw [hp]
+        rcases Int.lt_or_gt_of_ne hc.1 with hd | hd
+        · have hstop : ¬ (x + ((rest.length + 1 : Nat) : Int) * (y - x) + (y - x) < 0) ∨
+              (x + ((rest.length + 1 : Nat) : Int) * (y - x) + (y - x) < 0) := by omega
+          have := @pySlice_neg x (y - x) (rest.length + 1) n hd (hn x List.mem_cons_self).2
+            (by have := hc.2.2.2; rw [hl] at this; exact this)
+          simpa using this
+        · have hlt : x + ((rest.length + 1 : Nat) : Int) * (y - x) < n := by
+            rw [← hl]; exact (hn _ hmemlast).2
+          have hpos : ¬ (x + ((rest.length + 1 : Nat) : Int) * (y - x) + (y - x) < 0) := by
+            have := hc.2.2.2; rw [hl] at this; omega
+          rw [if_neg hpos]
+          exact pySlice_pos hd hc.2.2.1 hlt
+      · cases strict <;> simp at h
+
+example : index2slice [10, 7, 4, 1] false = .ok (.slice (some 10) none (some (-3))) ∧
+    pySlice (some 10) none (some (-3)) 11 = .ok [10, 7, 4, 1] ∧
+    index2slice [3, 4, 5, 6] true = .ok (.slice (some 3) (some 7) (some 1)) ∧
+    index2slice [-1] false = .ok (.slice (some (-1)) none none) ∧
+    index2slice [0, 3, 5] true = .error .value ∧ index2slice [2, 2] false = .ok (.pv [2, 2]) := by
+  decide
+
+/-! ## merge_lists -/
+
+/-- `merge_lists(list1, list2) = (merged, pv1, pv2)`: the documented equations
+`list1 = [merged[i] for i in pv1]`, `list2 = [merged[i] for i in pv2]`; `merged` holds exactly the
+items of both lists; the order of `list1` is kept (`list1` is a subsequence of `merged`, `pv1` is
+non-decreasing, increasing when `list1` has no repeats); no repeats in the inputs, none in
+`merged`. -/
+theorem merge_lists_spec {α : Type} [DecidableEq α] (l1 l2 : List α) :
+    let r := mergeLists l1 l2
+    r.2.1.map (r.1[·]?) = l1.map some ∧ r.2.2.map (r.1[·]?) = l2.map some ∧
+    l1.Sublist r.1 ∧ (∀ x, x ∈ r.1 ↔ x ∈ l1 ∨ x ∈ l2) ∧
+    r.2.1.Pairwise (· ≤ ·) ∧ (l1.Nodup → r.2.1.Pairwise (· < ·)) ∧
+    (l1.Nodup → l2.Nodup → r.1.Nodup) := by
+  have hsub : l1.Sublist (mergeLists l1 l2).1 := by
+    unfold mergeLists
+    exact (foldl_mergeStep_sublist l2 (l1, [])).trans (List.sublist_append_left _ _)
+  have hmem : ∀ x, x ∈ (mergeLists l1 l2).1 ↔ x ∈ l1 ∨ x ∈ l2 := by
+    intro x
+    unfold mergeLists
+    simp only
+    rw [foldl_mergeStep_mem x l2 (l1, [])]
+    simp
+  obtain ⟨h1, h2, _⟩ := pv1Loop_spec (mergeLists l1 l2).1 l1 0 (by simpa using hsub)
+  refine ⟨h1, ?_, hsub, hmem, h2, fun hnd => pairwise_lt_of_map _ h1 h2 hnd, ?_⟩
+  · show (l2.map fun e => (mergeLists l1 l2).1.idxOf e).map ((mergeLists l1 l2).1[·]?) = l2.map some
+    rw [List.map_map]
+    apply List.map_congr_left
+    intro e he
+    exact List.getElem?_idxOf ((hmem e).mpr (Or.inr he))
+  · intro hn1 hn2
+    unfold mergeLists
+    exact foldl_mergeStep_nodup l2 (l1, []) hn1 (by simpa using hn2) (by simp)
+
+/-- where the new items go (no repeats in `list2`): an item of `list2` that is not in `list1`
+stands immediately in front of its successor in `list2` ("inserted just in front of the next
+common element", runs of new items kept together); a new last item of `list2` is the last item
+of `merged`. -/
+theorem merge_lists_inserts {α : Type} [DecidableEq α] (l1 : List α) (x : α) (hx : x ∉ l1) :
+    (∀ A B y, (A ++ x :: y :: B).Nodup →
+      ∃ C D, (mergeLists l1 (A ++ x :: y :: B)).1 = C ++ x :: y :: D) ∧
+    (∀ A, (A ++ [x]).Nodup → ∃ C, (mergeLists l1 (A ++ [x])).1 = C ++ [x]) :=
+  ⟨fun A B y hnd => mergeLists_adj l1 A B x y hnd hx, fun A hnd => mergeLists_last l1 A x hnd hx⟩
+
+example : mergeLists [1, 4, 10] [0, 1, 2, 4, 5] = ([0, 1, 2, 4, 10, 5], [1, 3, 4], [0, 1, 2, 3, 5]) := by
+  decide
+
+/-- non-vacuity of `merge_lists_inserts`: the new item 2 stands in front of its successor 4, the new
+last item 5 is last -/
+example : (∃ C D, (mergeLists [1, 4, 10] ([0, 1] ++ 2 :: 4 :: [5])).1 = C ++ 2 :: 4 :: D) ∧
+    (∃ C, (mergeLists [1, 4, 10] ([0, 1, 2, 4] ++ [5])).1 = C ++ [5]) :=
+  ⟨(merge_lists_inserts [1, 4, 10] 2 (by decide)).1 [0, 1] [5] 4 (by decide),
+   (merge_lists_inserts [1, 4, 10] 5 (by decide)).2 [0, 1, 2, 4] (by decide)⟩
+
+/-! ## mkusetmask / mksetpv with `+` combinations -/
+
+theorem inSet_or (w a b : Nat) : inSet w (a ||| b) = (inSet w a || inSet w b) := by
+  unfold inSet
+  rw [Nat.and_or_distrib_left, Bool.eq_iff_iff]
+  simp only [bne_iff_ne, ne_eq, Nat.or_eq_zero_iff, Bool.or_eq_true]
+  by_cases h : w &&& a = 0 <;> simp [h]
+
+/-- `mkusetmask("x+y+…")` is the union of the named sets: a DOF is in it iff it is in one of
+them. -/
+theorem mkusetmask_plus (msk : SetName → Nat) (sets : List SetName) (w : Nat) :
+    inSet w (setsMask msk sets) = sets.any (fun s => inSet w (msk s)) := by
+  unfold setsMask
+  have : ∀ (l : List SetName) (acc : Nat),
+      inSet w (l.foldl (fun acc k => acc ||| msk k) acc) =
+        (inSet w acc || l.any (fun s => inSet w (msk s))) := by
+    intro l
+    induction l with
+    | nil => intro acc; simp
+    | cons k t ih =>
+        intro acc
+        rw [List.foldl_cons, ih, inSet_or, List.any_cons, Bool.or_assoc]
+  rw [this]
+  simp [inSet]
+
+/-- `mksetpv` with `+` combinations for major and minor: refused iff a DOF of one of the minor
+sets lies in none of the major sets; otherwise the vector runs over the DOF of the union of the
+major sets and marks those of the union of the minor sets. -/
+theorem mksetpv_plus (msk : SetName → Nat) (words : List Nat) (major minor : List SetName) :
+    (mksetpv words (setsMask msk major) (setsMask msk minor) = .error .value ↔
+      ∃ w ∈ words, (∃ s ∈ minor, inSet w (msk s) = true) ∧ ∀ s ∈ major, inSet w (msk s) = false) ∧
+    (∀ pv, mksetpv words (setsMask msk major) (setsMask msk minor) = .ok pv →
+      pv = (words.filter (fun w => major.any (fun s => inSet w (msk s)))).map
+        (fun w => minor.any (fun s => inSet w (msk s)))) := by
+  constructor
+  · rw [(mksetpv_refuses_iff words _ _).1]
+    simp only [mkusetmask_plus, List.any_eq_true, List.any_eq_false]
+    constructor
+    · rintro ⟨w, hw, h1, h2⟩
+      exact ⟨w, hw, h1, fun s hs => by simpa using h2 s hs⟩
+    · rintro ⟨w, hw, h1, h2⟩
+      exact ⟨w, hw, h1, fun s hs => by simpa using h2 s hs⟩
+  · intro pv h
+    have := (mksetpv_spec words _ _ pv h).2.1
+    rw [this]
+    simp only [mkusetmask_plus]
+
+example : setsMask mask [.a, .o] = mask .f - 64 ∧ setsMask mask [.q, .b] = 6291458 := by decide
+
+/-! ## make_uset -/
+
+/-- FULL STATEMENT (not a theorem of the code): *for every request accepted by `make_uset` with
+one set word per request row, every DOF named by a request row carries that row's word*
+(`makeUset (.rows rows) nas = .ok tbl → nas.length = rows.length → tbl = wantedTbl rows nas`).
+It fails for a component list split over several rows, `[[1, 123], [1, 456]]` — see
+`make_uset_sets_needs_canon`.  Proved below for the documented request forms `Canon`: scalar point
+`[id, 0]`, grid `[id, 123456]`, grid DOF by DOF `[id, 1] … [id, 6]` (1-D ids: `make_uset_ids`).
+
+`make_uset_sets_partial`: on such a request `make_uset` succeeds and the table is exactly the
+requested one, six rows per grid, one per scalar point, in request order, each with the set word
+of its request row; a single word goes to every row (for any request that passes the 6-DOF check). -/
+theorem make_uset_sets_partial (rows : List (Nat × Nat)) (hc : Canon rows) :
+    (∀ nas, nas.length = rows.length → makeUset (.rows rows) nas = .ok (wantedTbl rows nas)) ∧
+    (∀ v, makeUset (.rows rows) [v] = .ok (wantedTbl rows (List.replicate rows.length v))) ∧
+    (∀ nas, nas.length ≠ 1 → nas.length ≠ rows.length → makeUset (.rows rows) nas = .error .value) := by
+  refine ⟨fun nas hl => makeUset_canon hc nas hl, fun v => ?_, fun nas h1 h2 => ?_⟩
+  · rw [makeUset_scalar rows v _ (makeUsetDof_canon hc)]
+    have := zip_scalar v rows
+    rw [← this]
+    congr 1
+    generalize rows.flatMap expandRow = l
+    induction l with
+    | nil => rfl
+    | cons a t ih => simp [List.replicate_succ, ih]
+  · unfold makeUset
+    rw [if_pos ⟨h1, h2⟩]
+
+/-- the hypothesis is needed: with the six components of a grid split over two request rows the
+code gives DOF 1 the first word, DOF 2 the second and leaves DOF 3-6 in no set at all, where the
+request asks for DOF 1-3 in the first and DOF 4-6 in the second set. -/
+theorem make_uset_sets_needs_canon :
+    makeUset (.rows [(1, 123), (1, 456)]) [2, 4] =
+      .ok [(1, 1, 2), (1, 2, 4), (1, 3, 0), (1, 4, 0), (1, 5, 0), (1, 6, 0)] ∧
+    wantedTbl [(1, 123), (1, 456)] [2, 4] =
+      [(1, 1, 2), (1, 2, 2), (1, 3, 2), (1, 4, 4), (1, 5, 4), (1, 6, 4)] := by
+  have d1 : digits 123 = [1, 2, 3] := by simp [digits, digitsRev]
+  have d2 : digits 456 = [4, 5, 6] := by simp [digits, digitsRev]
+  constructor
+  · simp [makeUset, makeUsetDof, makeUsetWords, expanddof, expanddof2, expandRow, d1, d2, nrows,
+      rows2, spread, spreadG, bind, Except.bind]
+  · simp [wantedTbl, d1, d2]
+
+/-- 1-D ids are grids: the same table as the request `[id, 123456]` per id. -/
+theorem make_uset_ids (ids : List Nat) (g : Bool) (nas : List Nat) :
+    makeUset (.ids ids g) nas = makeUset (.rows (ids.map fun i => (i, 123456))) nas := by
+  have hcanon : ∀ l : List Nat, Canon (l.map fun i => (i, 123456)) := by
+    intro l
+    induction l with
+    | nil => exact Canon.nil
+    | cons a t ih => exact Canon.grid a ih
+  have hexp : expanddof1 ids true = (ids.map fun i => (i, 123456)).flatMap expandRow := by
+    unfold expanddof1
+    rw [List.flatMap_map]
+    apply List.flatMap_congr
+    intro i _
+    rw [expandRow_grid]; rfl
+  have hdof : makeUsetDof (.ids ids g) = makeUsetDof (.rows (ids.map fun i => (i, 123456))) := by
+    rw [makeUsetDof_canon (hcanon ids)]
+    have := makeUsetDof_canon (hcanon ids)
+    unfold makeUsetDof at this ⊢
+    simp only [expanddof, expanddof2_canon (hcanon ids), bind, Except.bind] at this ⊢
+    rw [hexp]; exact this
+  have hw : ∀ edof, makeUsetWords (.ids ids g) edof nas =
+      makeUsetWords (.rows (ids.map fun i => (i, 123456))) edof nas := by
+    intro edof
+    unfold makeUsetWords
+    simp only [nrows, rows2, List.length_map]
+  unfold makeUset
+  simp only [nrows, List.length_map, hdof, hw]
+
+/-- coordinates on the documented request forms: a grid given by one row gets its location row
+followed by the five rows of the basic coordinate system, a grid given DOF by DOF its six `xyz`
+rows, a scalar point its row; every row is set. -/
+theorem make_uset_coords_partial (rows : List (Nat × Nat)) (hc : Canon rows) (nas : List Nat)
+    (xyz : List Xyz) (hn : nas.length = rows.length) (hx : xyz.length = rows.length) :
+    makeUsetXyz (.rows rows) nas xyz =
+      .ok ((wantedTbl rows nas).zip
+        (((rows.zip xyz).flatMap fun p =>
+          if p.1.2 = 123456 then p.2 :: basicRows else [p.2]).map some)) :=
+  makeUsetXyz_canon hc nas xyz hn hx
+
+example : Canon [(1, 123456), (2, 0), (7, 1), (7, 2), (7, 3), (7, 4), (7, 5), (7, 6)] :=
+  Canon.grid 1 (Canon.spoint 2 (Canon.perdof 7 Canon.nil))
+
+/-- the docstring example of `make_uset`: grid 1 in the b-set at (1, 2, 3), scalar point 2 in the q-set -/
+example : makeUsetXyz (.rows [(1, 123456), (2, 0)]) [2097154, 4194304] [(1, 2, 3), (0, 0, 0)] =
+    .ok [((1, 1, 2097154), some (1, 2, 3)), ((1, 2, 2097154), some (0, 1, 0)),
+         ((1, 3, 2097154), some (0, 0, 0)), ((1, 4, 2097154), some (1, 0, 0)),
+         ((1, 5, 2097154), some (0, 1, 0)), ((1, 6, 2097154), some (0, 0, 1)),
+         ((2, 0, 4194304), some (0, 0, 0))] := by
+  rw [make_uset_coords_partial _ (Canon.grid 1 (Canon.spoint 2 Canon.nil)) _ _ rfl rfl]
+  simp [wantedTbl, digits_all, digits_zero, basicRows]
+
+/-! ## upasetpv / upqsetpv -/
+
+/-- `upasetpv(nas, seup)`: the downstream SE is read from the first `selist` row of `seup`; the
+vector indexes the table of THAT (downstream) SE, `dnids` and `maps` are those of `seup`.  With
+`S` the boundary ids (`dnids`, or the downstream nodes whose `upids` entry is in `dnids` when
+`dnids` are internally generated ids): without `maps` the vector lists, in ascending order,
+exactly the rows of the downstream table whose id is in `S`, and they are at least as many as
+`dnids` has entries; with `maps` (second column all 1) it is that list re-indexed, `pv[k] =
+rows[maps[k]]` (negative entries wrap). -/
+theorem upasetpv_spec (nas : Nas) (seup : Nat) (pv : List Nat) (h : upasetpv nas seup = .ok pv) :
+    ∃ sedn usetdn dnids maps mask,
+      nas.selist.find? (fun r => r.1 = seup) = some (seup, sedn) ∧
+      lookupD nas.uset sedn = .ok usetdn ∧ lookupD nas.dnids seup = .ok dnids ∧
+      lookupD nas.maps seup = .ok maps ∧ upMask nas sedn usetdn dnids = .ok mask ∧
+      dnids.length ≤ (positions mask).length ∧ (positions mask).Pairwise (· < ·) ∧
+      (∃ S, (S = dnids ∨ ∃ upids, lookupD nas.upids sedn = .ok upids ∧
+                S = (((nodeIds usetdn).zip upids).filter
+                      fun p => (dnids.map Int.ofNat).contains p.2).map (·.1)) ∧
+            ∀ i, i ∈ positions mask ↔ ∃ r, usetdn[i]? = some r ∧ r.1 ∈ S) ∧
+      (maps = [] → pv = positions mask) ∧
+      (maps ≠ [] → (∀ m ∈ maps, m.2 = 1) ∧
+        List.Forall₂ (fun m p => ∃ j, normIndex (positions mask).length m.1 = some j ∧
+          (positions mask)[j]? = some p) maps pv) := by
+  unfold upasetpv at h
+  cases hf : nas.selist.find? (fun r => r.1 = seup) with
+  | none => rw [hf] at h; cases h
+  | some row =>
+    rw [hf] at h
+    simp only at h
+    have hrow : row.1 = seup := by simpa using List.find?_some hf
+    cases h1 : lookupD nas.uset row.2 with
+    | error e => rw [h1] at h; cases h
+    | ok usetdn =>
+      cases h2 : lookupD nas.dnids seup with
+      | error e => rw [h1, h2] at h; cases h
+      | ok dnids =>
+        cases h3 : lookupD nas.maps seup with
+        | error e => rw [h1, h2, h3] at h; cases h
+        | ok maps =>
+          cases h4 : upMask nas row.2 usetdn dnids with
+          | error e => rw [h1, h2, h3] at h; simp only [bind, Except.bind, h4] at h; cases h
+          | ok mask =>
+            rw [h1, h2, h3] at h
+            simp only [bind, Except.bind, h4] at h
+            obtain ⟨hcnt, hS⟩ := upMask_spec h4
+            obtain ⟨ha, hb⟩ := applyMaps_spec h
+            refine ⟨row.2, usetdn, dnids, maps, mask, ?_, h1, rfl, rfl, h4, ?_,
+              positions_sorted mask, ?_, ha, hb⟩
+            · rw [← hrow]
+            · rw [positions_length]; exact hcnt
+            · rcases hS with hS | ⟨upids, hu, _, _, hS⟩
+              · exact ⟨dnids, Or.inl rfl, fun i => by rw [mem_positions, hS, idMask_get]⟩
+              · exact ⟨_, Or.inr ⟨upids, hu, rfl⟩, fun i => by rw [mem_positions, hS, idMask_get]⟩
+
+/-- a small dictionary: SE 100 is upstream of the residual 0; its boundary (grid 3 renumbered 7 on
+the CSUPER entry, scalar point 11 in the q-set) sits behind an interior scalar point of SE 0. -/
+def exampleNas : Nas where
+  selist := [(100, 0), (0, 0)]
+  uset := [(0, [(5, 0, 4), (7, 1, 2), (7, 2, 2), (7, 3, 2), (7, 4, 2), (7, 5, 2), (7, 6, 2), (11, 0, 2)]),
+           (100, [(3, 1, 2), (3, 2, 2), (3, 3, 2), (3, 4, 2), (3, 5, 2), (3, 6, 2), (11, 0, 4194304),
+                  (20, 0, 4)])]
+  dnids := [(100, [7, 11])]
+  maps := [(100, []), (0, [])]
+  upids := []
+
+example : upasetpv exampleNas 100 = .ok [1, 2, 3, 4, 5, 6, 7] ∧
+    upasetpv exampleNas 5 = .error .value ∧ upasetpv exampleNas 0 = .error .key := by decide
+
+example : upqsetpv (mask .a) (mask .q) (mask .p) exampleNas 3 0 =
+      .ok [false, false, false, false, false, false, false, true] ∧
+    upqsetpv (mask .a) (mask .q) (mask .p) exampleNas 3 100 = .error .value := by decide
+
+/-- `pv[idx] = vals` for distinct places inside the vector: place `idx[k]` holds `vals[k]`, every
+other place is unchanged, the length is kept. -/
+theorem scatter_spec (pv : List Bool) (idx : List Nat) (vals : List Bool) (hnd : idx.Nodup)
+    (hl : idx.length = vals.length) (hb : ∀ i ∈ idx, i < pv.length) :
+    (scatter pv idx vals).length = pv.length ∧
+    List.Forall₂ (fun i v => (scatter pv idx vals)[i]? = some v) idx vals ∧
+    ∀ j, j ∉ idx → (scatter pv idx vals)[j]? = pv[j]? :=
+  ⟨scatter_length idx vals pv, scatter_at idx vals pv hnd hl hb, fun j hj => scatter_other idx vals pv j hj⟩
+
+/-- `upqsetpv(nas, sedn)` returns one flag per row of the table of `sedn`. -/
+theorem upqsetpv_length (amask qmask pmask : Nat) (nas : Nas) (fuel sedn : Nat) (out : List Bool)
+    (h : upqsetpv amask qmask pmask nas fuel sedn = .ok out) :
+    ∃ usetdn, lookupD nas.uset sedn = .ok usetdn ∧ out.length = usetdn.length :=
+  upqsetpv_length' h
+
+/-- `upqsetpv` for one upstream SE (besides the row of `selist` that names `sedn` itself, which is
+skipped) that has no upstream SEs of its own and no reordering map
+(`qup` = its q-set flags over its a-set, or its a-set scalar points when it has no q-set; `m` =
+the boundary rows in the downstream table, as in `upasetpv_spec`): the boundary rows receive, in
+table order, the flags `qup`; every other row is `False`; nothing is flagged when `qup` is all
+`False`. -/
+theorem upqsetpv_one_upstream (amask qmask pmask : Nat) (nas : Nas) (fuel sedn seup : Nat)
+    (usetdn usetup : List Row) (dnids : List Nat) (qup m : List Bool)
+    (hups : ((nas.selist.filter fun r => r.2 = sedn).map (·.1)).filter (fun s => decide (s ≠ sedn))
+      = [seup]) (hne : seup ≠ sedn)
+    (hleaf : nas.selist.any (fun r => r.2 = seup) = false)
+    (h1 : lookupD nas.uset sedn = .ok usetdn) (h2 : lookupD nas.uset seup = .ok usetup)
+    (h3 : lookupD nas.dnids seup = .ok dnids) (h4 : lookupD nas.maps seup = .ok [])
+    (h5 : qupOwn amask qmask pmask usetup = .ok qup) (h6 : upMask nas sedn usetdn dnids = .ok m)
+    (h7 : qup.length = (positions m).length) (hm : m.length = usetdn.length) :
+    ∃ out, upqsetpv amask qmask pmask nas (fuel + 1) sedn = .ok out ∧ out.length = usetdn.length ∧
+      (qup.any id = false → out = List.replicate usetdn.length false) ∧
+      (qup.any id = true →
+        List.Forall₂ (fun i v => out[i]? = some v) (positions m) qup ∧
+        ∀ j, j ∉ positions m → j < usetdn.length → out[j]? = some false) :=
+  upqsetpv_one hups hne hleaf h1 h2 h3 h4 h5 h6 h7 hm
+
+/-- non-vacuity of `upqsetpv_one_upstream`: its hypotheses hold for `exampleNas` -/
+example : ∃ out, upqsetpv (mask .a) (mask .q) (mask .p) exampleNas 3 0 = .ok out ∧ out.length = 8 :=
+  let ⟨out, h, hl, _⟩ := upqsetpv_one_upstream (mask .a) (mask .q) (mask .p) exampleNas 2 0 100
+    [(5, 0, 4), (7, 1, 2), (7, 2, 2), (7, 3, 2), (7, 4, 2), (7, 5, 2), (7, 6, 2), (11, 0, 2)]
+    [(3, 1, 2), (3, 2, 2), (3, 3, 2), (3, 4, 2), (3, 5, 2), (3, 6, 2), (11, 0, 4194304), (20, 0, 4)]
+    [7, 11] [false, false, false, false, false, false, true]
+    [false, true, true, true, true, true, true, true]
+    (by decide) (by decide) (by decide) (by decide) (by decide) (by decide) (by decide) (by decide)
+    (by decide) (by decide) (by decide)
+  ⟨out, h, hl⟩
+
+/-- the flags written for an upstream SE: its q-set DOF among its a-set DOF; when it has no
+q-set DOF at all, its a-set scalar points (every DOF of the table being in the p-set). -/
+theorem qupOwn_spec (amask qmask pmask : Nat) (usetup : List Row) (qup : List Bool)
+    (h : qupOwn amask qmask pmask usetup = .ok qup)
+    (hp : ∀ r ∈ usetup, inSet r.2.2 pmask = true) :
+    let arows := usetup.filter (fun r => inSet r.2.2 amask)
+    (arows.any (fun r => inSet r.2.2 qmask) = true → qup = arows.map (fun r => inSet r.2.2 qmask)) ∧
+    (arows.any (fun r => inSet r.2.2 qmask) = false → qup = arows.map (fun r => decide (r.2.1 = 0))) := by
+  unfold qupOwn at h
+  simp only [bind, Except.bind] at h
+  cases hq : mksetpv (usetup.map (·.2.2)) amask qmask with
+  | error e => rw [hq] at h; cases h
+  | ok q =>
+    rw [hq] at h
+    simp only at h
+    have hqv := (mksetpv_spec _ _ _ q hq).2.1
+    have hqv' : q = (usetup.filter (fun r => inSet r.2.2 amask)).map (fun r => inSet r.2.2 qmask) := by
+      rw [hqv, List.filter_map, List.map_map]; rfl
+    have hany : q.any id = (usetup.filter (fun r => inSet r.2.2 amask)).any (fun r => inSet r.2.2 qmask) := by
+      rw [hqv', List.any_map]; rfl
+    split at h
+    · rename_i ht
+      cases h
+      refine ⟨fun _ => hqv', fun hf => ?_⟩
+      rw [hany] at ht; rw [ht] at hf; cases hf
+    · rename_i hf
+      refine ⟨fun ht => ?_, fun _ => ?_⟩
+      · rw [hany] at hf; exact absurd ht hf
+      · cases hpa : mksetpv (usetup.map (·.2.2)) pmask amask with
+        | error e => rw [hpa] at h; cases h
+        | ok pa =>
+          rw [hpa] at h
+          simp only at h
+          have hall : (usetup.map (·.2.2)).filter (inSet · pmask) = usetup.map (·.2.2) :=
+            List.filter_eq_self.mpr (by
+              intro w hw
+              obtain ⟨r, hr, rfl⟩ := List.mem_map.mp hw
+              exact hp r hr)
+          have hpav := (mksetpv_spec _ _ _ pa hpa).2.1
+          rw [hall, List.map_map] at hpav
+          unfold maskSel at h
+          rw [if_neg (by rw [hpav]; simp)] at h
+          simp only [Except.ok.injEq] at h
+          rw [← h, hpav]
+          have := zip_filter_map (fun r : Row => r.2.1) (fun r : Row => inSet r.2.2 amask) usetup
+          show List.map (fun d => decide (d = 0)) (List.map (fun x => x.1)
+            (List.filter (fun x => x.2) ((usetup.map (fun r => r.2.1)).zip
+              (usetup.map (fun r => inSet r.2.2 amask))))) = _
+          rw [this, List.map_map, List.map_map]
+          rfl
 
 example : findUnique [4, 4, -2, -2, 0, -2] 1 1000000 = .ok [true, false, true, false, true, true] := by
   decide
